@@ -718,6 +718,15 @@ func (m *monitor) step(s stepRec) string {
 			if m.uncertain {
 				return m.refuse(s, "declared SIZE over the limit or chunked transfer open")
 			}
+			if m.txn && m.binary {
+				// a second MAIL inside a transaction is not specified, a
+				// refused one included: whether the BODY type of the open
+				// transaction survives it is open (the server forgets it)
+				m.classes["unspecified_second_mail"] = true
+				e := m.refuse(s, "declared SIZE over the limit", 552)
+				m.uncertain = true
+				return e
+			}
 			return m.refuse(s, "declared SIZE over the limit", 552)
 		}
 		if m.uncertain {
